@@ -44,7 +44,7 @@ MARK = b'canary_marker_7f3a'
 AVOID_TAGS = ('prefix_sibling', 'carts_prefix', 'dotdot_pattern')
 SEGS = ['lib', 'sub', '.', '..', '', 'projx', 'ok', 'canary', '?', ';']
 SIB = {'own': 'projx', 'home': 'cartsX', 'homex': 'carts'}
-SIBLINGS = {'projx', 'proj-old', 'libsx', 'cartsX', 'cartsXy'}
+SIBLINGS = {'projx', 'proj-old', 'libsx', 'cartsX', 'cartsXy', 'Proj', 'PROJ', 'Libs', 'LIBS', 'Carts', 'CARTS', 'cartsx'}
 RSEGS = SEGS + ['proj', 'work', 'abs', 'libs', 'libsx', 'proj-old', 'init', 'mod', 'pkg', 'inc', 'main', '...',
                 'home', '.lexaloffle', 'pico-8', 'carts', 'cartsX', 'cartsXy', 'game', 'gamex', 'ok.lua',
                 'canary.lua', 'main.lua', 'build', 'out.p8']
@@ -61,6 +61,9 @@ FILES = [(p, True) for p in (
     'abs/canary.lua', 'abs/init.lua', 'abs/ok.lua', 'abs/mod.lua',
     'abs/libsx/canary.lua', 'abs/libsx/ok.lua', 'abs/libsx/mod.lua', 'abs/libsx/init.lua', 'abs/libsx/pkg/init.lua',
     'home/canary.lua', HP + '/canary.lua', HP + '/ok.lua', HP + '/cartsXy/canary.lua', HP + '/cartsXy/ok.lua',
+    # directories whose names differ from a root's only in letter case (different directories on this file system)
+    'work/Proj/canary.lua', 'work/PROJ/ok.lua', 'work/Proj/lib/ok.lua', 'abs/Libs/mod.lua', 'abs/LIBS/ok.lua',
+    HP + '/Carts/canary.lua', HP + '/CARTS/ok.lua', HP + '/Carts/game/ok.lua', HP + '/cartsx/canary.lua',
 )] + [(p, False) for p in (
     'work/proj/ok.lua', 'work/proj/ok.p8', 'work/proj/init.lua', 'work/proj/lib/ok.lua', 'work/proj/lib/ok.p8',
     'work/proj/lib/ok.p8.png', 'work/proj/lib/init.lua', 'work/proj/lib/lib/ok.lua', 'work/proj/sub/ok.lua',
@@ -137,10 +140,10 @@ class Layout:
         return os.path.join(self.tmp, rel) if rel else self.tmp
 
     def sub(self, tpl):
-        return tpl.replace('{TMP}', self.tmp)
+        return tpl.replace('{TMPDOT}', self.tmp.strip('/').replace('/', '.')).replace('{TMP}', self.tmp)
 
     def tpl(self, s):
-        return s.replace(self.tmp, '{TMP}')
+        return s.replace(self.tmp, '{TMP}').replace(self.tmp.strip('/').replace('/', '.'), '{TMPDOT}')
 
     # -- environment ------------------------------------------------------------------
     def setenv(self, name, value):
@@ -425,6 +428,10 @@ def classify(case):
         labs.append('backslash')
     if '$' in S or '%' in S:
         labs.append('env_var')
+    if '/' not in S.replace('{TMP}', '') and S.count('.') >= 3:
+        labs.append('dotted_path')
+    if any(s in ('Proj', 'PROJ', 'Libs', 'LIBS', 'Carts', 'CARTS', 'cartsx') for s in segs):
+        labs.append('case_variant_sibling')
     return labs
 
 
@@ -510,6 +517,15 @@ def special_strings(lay, bases):
     for path in sorted(lay.content):
         stems = {path} | {path[:-len(e)] for e in EXTS if path.endswith(e)}
         for stem in sorted(stems):
+            # Lua's package convention spells directories with dots: the absolute path and the escaping relative
+            # paths of every file, dot-encoded
+            if '.' not in stem.strip('/').replace('/', ''):
+                out.append('.' + stem.strip('/').replace('/', '.'))
+                out.append(stem.strip('/').replace('/', '.'))
+                for b in bases:
+                    rel = os.path.relpath(stem, b)
+                    if rel.startswith('../'):
+                        out.append('..' + rel[3:].replace('../', '.').replace('/', '.'))
             if contains(home, stem):
                 out.append('~/' + os.path.relpath(stem, home))
                 out.append('$HOME/' + os.path.relpath(stem, home))
@@ -648,7 +664,7 @@ def replay(case):
 
 def vacuity(total, tier):
     msgs = []
-    need = ['dotdot', 'absolute', 'sibling', 'tilde', 'backslash', 'env_var', 'inside_ok', 'rejected', 'nested', 'mode_include', 'mode_require',
+    need = ['dotdot', 'absolute', 'sibling', 'tilde', 'backslash', 'env_var', 'dotted_path', 'case_variant_sibling', 'inside_ok', 'rejected', 'nested', 'mode_include', 'mode_require',
             'bare_relative_cart_name', 'require_string_call_form',
             'target_outside', 'failed_other']
     need += ['setting_' + s for s in INC_SETTINGS + REQ_ORDER]
